@@ -386,6 +386,8 @@ def get_index(v, idx, ty=None):
         pass
     if isinstance(v, Ite):
         return ite(v.c, get_index(v.a, idx, ty), get_index(v.b, idx, ty))
+    if isinstance(v, Sym) and v.atom.kind == 'app' and v.atom.name == 'from_elem':
+        return v.atom.args[0]          # vec![x; n][i] == x
     return mk_sym(nf.app_atom('elem', frozen(v), idx), ty or elem_ty(v))
 
 
@@ -508,6 +510,7 @@ class Interp:
         self.evaluations = 0
         self.unknown_calls = {}
         self.loops = []           # loop records (see run_loop)
+        self.closure_runs = []    # per-element closure evaluations of iterator adaptors (tables._adaptor)
         self.assumed = set()      # keys of branch conditions whose other arms all diverge (assertions)
         from . import tables as T
         self.tables = T
